@@ -128,7 +128,7 @@ def run(ctx):
                     ctx.check(F.is_wellformed(W, [n] * d) and np.abs(F.dense(W) - Fd).max() <= 1e-9 * (2.0 ** sp + np.abs(Fd).max()), 'qtt_to_tt:roundtrip', 'qtt_to_tt(tt_to_qtt(Y)) differs from Y (%s)' % pname)
                 Y, Fd = Yorig, Fd0
                 for cap in (1, 2, 3):
-                    for e_ in (1e-12, 1e-2):
+                    for e_ in (1e-12, 1e-2, 0.):          # e = 0 exactly is the default of the core-level routine
                         Zc = teneva.tt_to_qtt(Y, e=e_, r=cap)
                         if not ctx.check(F.is_wellformed(Zc, [2] * (d * q)), 'tt_to_qtt:wellformed', 'capped conversion malformed'):
                             continue
@@ -146,7 +146,7 @@ def run(ctx):
         for (r1, r2) in ((2, 3), (3, 2), (1, 4), (4, 1), (3, 3), (1, 1)):
             G = rng.integers(-2, 3, size=(r1, n, r2)).astype(float)
             keepG = G.copy()
-            for cap, e_ in ((100, 1e-14), (100, 0.), (1, 1e-12), (2, 1e-12), (2, 1e-2), (3, 1e-12)):
+            for cap, e_ in ((100, 1e-14), (100, 0.), (1, 1e-12), (2, 1e-12), (2, 1e-2), (3, 1e-12), (1, 0.), (2, 0.), (3, 0.)):
                 ctx.case(key=('core', q, r1, r2, cap, e_), nontrivial=q >= 2 and min(r1, r2) >= 2)
                 try:
                     Q = teneva.core_tt_to_qtt(G, e_, cap)
